@@ -144,7 +144,9 @@ def check_doc(doc, nlangs_expected, ncaps_expected):
             if regions.count(r) != 1:
                 return "region reference %r does not resolve to exactly one definition" % r
     unused = [r for r in regions if r not in used_regions]
-    if unused:
+    # a document without a single paragraph (every written language is empty) has nothing that could reference the default
+    # region: outside the property, which speaks of the regions of captions
+    if unused and any(True for _ in root.iter(TT + "p")):
         return "regions defined but never referenced: %r" % unused
     return None
 
@@ -168,7 +170,22 @@ def explore(chk):
     sets = []
     for i in range(N):
         d = gen_api_desc(rng, nasty_attrs=(i % 5 == 4))
-        sets.append(("api", d, setbuild.build(d)))
+        cs_ = setbuild.build(d)
+        if i % 7 == 3:
+            # a language without captions next to the others (what the DFXP reader returns for a div of blank paragraphs):
+            # it is a written language like the others
+            from pycaption import CaptionList
+            sub_ = chk.sub("empty_language")
+            cs_.set_captions(sub_.choice(["zz-empty", "de-CH"]), CaptionList(layout_info=None))
+            if sub_.random() < 0.5:
+                # ... and every caption of the other languages positioned, so that nothing but the empty language uses the default region
+                for l_ in cs_.get_languages():
+                    for c_ in cs_.get_captions(l_):
+                        if c_.layout_info is None:
+                            c_.layout_info = setbuild.mk_layout({"origin": ["10%", "10%"], "extent": ["80%", "20%"]})
+                        for n_ in c_.nodes:
+                            n_.layout_info = n_.layout_info or c_.layout_info
+        sets.append(("api", d, cs_))
     # sets returned by readers
     for i in range(N // 3):
         d = setbuild.rand_desc(rng, unbalanced=0.0, absolute=0.0)
@@ -201,6 +218,18 @@ def explore(chk):
         chk.count("n"); chk.count("src_" + src.split(":")[0]); chk.count("w_" + wname)
         try:
             wobj = core.POOL.get(W, **opts)
+            chk._c07_n = getattr(chk, "_c07_n", 0) + 1
+            if chk._c07_n % 6 == 0:
+                # the writer object has just gone through a document that left a span open (a style that is never closed) or
+                # that failed inside a paragraph (a style value that is a number): the next document must not show it
+                from pycaption import CaptionSet as _CS, CaptionList as _CL, Caption as _C, CaptionNode as _N
+                bad_nodes = [_N.create_style(True, {"italics": True}), _N.create_text("left open")] + \
+                            ([_N.create_style(True, {"font-size": 12}), _N.create_text("never written")] if chk._c07_n % 12 == 0 else [])
+                try:
+                    wobj.write(_CS({"en-US": _CL([_C(1000000, 2000000, bad_nodes)])}))
+                except Exception:
+                    pass
+                case["writer_history"] = "after a document that left a span open" + (" and failed" if chk._c07_n % 12 == 0 else "")
             doc = wobj.write(cs, force=force) if force else wobj.write(cs)
         except Exception as e:
             chk.property_failure(dict(case, error=repr(e)[:300]), "%s writer raised %s" % (wname, type(e).__name__)); continue
